@@ -228,8 +228,12 @@ func callWith(spec EngineSpec, c yae.Callable, env interface{}) (v *val.Val, dbg
 			return nil, "", err
 		}
 	}
-	rcd := debug.NewRecord()
-	ve.Dgb = rcd
+	// a reused raw environment keeps its Record (the debug compiler clears it per run)
+	rcd, _ := ve.Dgb.(*debug.Record)
+	if rcd == nil {
+		rcd = debug.NewRecord()
+		ve.Dgb = rcd
+	}
 	v, err = c(ve)
 	return v, rcd.String(), err
 }
@@ -297,6 +301,19 @@ func registerUserFuns(e *yae.Expr, rec recFn) {
 		}
 		return args[1].Fun().Call()
 	}))
+	// nest :: num -> num   (strict; calls back into the library: invokes another compiled
+	// expression on its own private engine while the outer evaluation is in progress)
+	inner := yae.NewExpr()
+	innerC, ierr := inner.Compile("if(a > 1000, a - 1, a * 2 + 1)", map[string]interface{}{"a": 0.0})
+	if ierr == nil {
+		e.RegisterFun(val.Fun(types.Fun("nest", []*types.Type{types.Num}, types.Num), func(args ...*val.Val) *val.Val {
+			v, err := innerC(map[string]interface{}{"a": args[0].Num().V})
+			if err != nil {
+				panic(err)
+			}
+			return v
+		}))
+	}
 	// custom operator  <>  :: str -> str -> str
 	e.RegisterOperator(oper.Operator{Kind: "<>", BP: oper.BP_TERM, Fixity: oper.INFIX_L})
 	e.RegisterFun(val.Fun(types.Fun("<>", []*types.Type{types.Str, types.Str}, types.Str), func(args ...*val.Val) *val.Val {
@@ -538,6 +555,7 @@ var genericSrcs = []string{
 	"[m[\"k1\"], m[\"k2\"]] == [m[\"k1\"], m[\"k2\"]]", "string([n: x])", "print(n) == n",
 }
 var genericUserSrcs = []string{
+	"[nest(len(l)), nest(nest(len(ls)))]", "when(b, nest(1), nest(2)) + nest(when(b, 3, 4))",
 	"tr(n) == n", "first(l, n)", "when(b, n, x)", "[tr(n), tr(x)]", "when(orelse(b, false), first(l, x), n)",
 }
 var genericEnvs = []string{"map", "struct", "alt", "altstruct"}
@@ -622,6 +640,9 @@ var progPool = []Prog{
 	{"{a: tr(\"1\"), b: tr(\"2\")}", "none", true, false},
 	{"[tr(\"k\"): tr(1), tr(\"j\"): tr(2)]", "none", true, false},
 	{"first(union(l, [inc(n)]), 0)", "map", true, false},
+	{"nest(n) + nest(nest(x))", "map", true, false},
+	{"when(orelse(b, nest(1) > 0), nest(tr(n)), when(b, nest(2), nest(3)))", "struct", true, false},
+	{"[nest(1), when(b, nest(2), 0), orelse(nest(3) > 0, false)]", "none", true, false},
 	// ill-typed / failing
 	{"n + s", "map", false, false},
 	{"undefined_name + 1", "map", false, false},
